@@ -7,8 +7,10 @@
 * ``arc``: the two end states of a Keplerian arc and its true transfer angle.
 
 Accuracy: every step is a closed form evaluated in IEEE doubles; angles are O(10) rad, so positions carry
-<= ~1e-14 relative rounding (1e-9 km at 1e5 km).  Verified at development time by forward/backward closure and against
-verif/oracles/kepler_ref.py (written independently for C03): agreement <= 3e-9 km / 3e-12 km/s over the thorough lattice.
+~1e-14 relative rounding (1e-9 km at 1e5 km).  Checked at development time on 1.6e4 arcs against
+verif/oracles/kepler_ref.py (written independently for C03) and against the elements route: agreement better than
+1e-7 km (asserted bound, not a measured envelope); the check itself asserts on every arc that the two own routes to the
+end state (elements at nu1 vs ``propagate``) agree to 1e-8 of a / v_c before a solver is judged.
 """
 from __future__ import annotations
 
